@@ -181,6 +181,13 @@ class TcpConnection():
                 #: in _send_buffer is written on the next EVENT_WRITE.
                 tcp_connection.debug(f"[Socket-{self.sock_id}] Socket is "\
                                      f"not ready for writing yet")
+
+            except OSError:
+                #: Broken pipe, connection reset: the peer is gone.
+                tcp_connection.exception(f"[Socket-{self.sock_id}] An error "\
+                                         f"has occurred")
+
+                self._stop_threads = True
                 
             else:
                 self._send_buffer = self._send_buffer[sent:]
@@ -289,6 +296,13 @@ class SctpConnection(TcpConnection):
                 #: in _send_buffer is written on the next EVENT_WRITE.
                 tcp_connection.debug(f"[Socket-{self.sock_id}] Socket is "\
                                      f"not ready for writing yet")
+
+            except OSError:
+                #: Broken pipe, connection reset: the peer is gone.
+                tcp_connection.exception(f"[Socket-{self.sock_id}] An error "\
+                                         f"has occurred")
+
+                self._stop_threads = True
 
             else:
                 self._send_buffer = self._send_buffer[sent:]
